@@ -66,4 +66,10 @@ def gateArg : String :=
 def statusConsts : List String :=
   ["statusIdle=iota", "statusRunning", "statusSucceeded", "statusFailed"]
 
+def clientCalls : List String :=
+  ["target.go:runTarget.Evaluate:EvaluateTargets:calls=1:inLoop=false:variadic=true", "project.go:Project.Run:Run:calls=1:inLoop=false:variadic=false"]
+
+def skel_client_Evaluate : String :=
+  "(block (range v0 v1 (call (. engine EvaluateTargets) deps ...) (block (if _ (!= (. v1 Error) nil) (block (return (call (. fmt Errorf) \"dependency %v failed\" (index deps v0)))) _))))"
+
 end Dawn.Expected.Runner
